@@ -132,9 +132,15 @@ Definition canon (ds : list cd) : res store := canon_acc [] ds.
 (* the own slot of a candle: absent, or holding any value *)
 Definition slot (d : cd) (x : option val) : cd := match x with None => d | Some v => setk d v end.
 
-(* the per-indicator obligation *)
+(* canonical stores: built candle by candle, each reading computed on the store cut after it *)
+Inductive IsCanon : store -> Prop :=
+| IC_nil : IsCanon []
+| IC_snoc a d v : IsCanon a -> fresh d -> calc (a ++ [d]) (zlen a) = Ok v -> IsCanon (a ++ [setk d (rnd_ v)]).
+
+(* the per-indicator obligation: on a canonical prefix, the value computed at the next index
+   ignores every later candle and the current content of its own slot *)
 Definition Causal : Prop := forall (a : store) (d : cd) (x : option val) (rest : store),
-  fresh d -> calc (a ++ slot d x :: rest) (zlen a) = calc (a ++ [d]) (zlen a).
+  IsCanon a -> fresh d -> calc (a ++ slot d x :: rest) (zlen a) = calc (a ++ [d]) (zlen a).
 Hypothesis HC : Causal.
 
 Lemma zlen_snoc (a : store) c : zlen (a ++ [c]) = zlen a + 1.
@@ -150,21 +156,21 @@ Proof.
 Qed.
 
 (* running the loop over fresh candles behind any prefix produces the canonical store *)
-Lemma loop_fresh : forall (new : list cd) (a : store), Forall fresh new ->
+Lemma loop_fresh : forall (new : list cd) (a : store), IsCanon a -> Forall fresh new ->
   leaf_loop (zrange (zlen a) (zlen a + zlen new)) (a ++ new) = canon_acc a new.
 Proof.
-  induction new as [|d new IH]; intros a Hf.
+  induction new as [|d new IH]; intros a Ha Hf.
   - rewrite zrange_nil by (cbn; lia). rewrite app_nil_r. reflexivity.
   - inversion Hf as [|? ? Hd Hf']; subst.
     assert (L : zlen (d :: new) = 1 + zlen new) by (unfold zlen; cbn [List.length]; lia).
     pose proof (zlen_nonneg new).
     rewrite zrange_cons by lia. cbn [leaf_loop canon_acc]. rewrite pyidx_mid.
     unfold fresh in Hd. rewrite Hd.
-    pose proof (HC a d None new Hd) as Hc0. cbn [slot] in Hc0. rewrite Hc0.
-    destruct (calc (a ++ [d]) (zlen a)) as [v|e]; cbn [bind]; [|reflexivity].
+    pose proof (HC a d None new Ha Hd) as Hc0. cbn [slot] in Hc0. rewrite Hc0.
+    destruct (calc (a ++ [d]) (zlen a)) as [v|e] eqn:Ev; cbn [bind]; [|reflexivity].
     rewrite set_reading_mid. cbn [bind].
     replace (a ++ setk d (rnd_ v) :: new) with ((a ++ [setk d (rnd_ v)]) ++ new) by (rewrite <- app_assoc; reflexivity).
-    rewrite <- IH by assumption. rewrite zlen_snoc. f_equal. f_equal. lia.
+    rewrite <- IH; [|econstructor; eassumption|assumption]. rewrite zlen_snoc. f_equal. f_equal. lia.
 Qed.
 
 Lemma find_calc_index_fresh (ds : list cd) : Forall fresh ds -> find_calc_index NO I ds = 0%nat.
@@ -177,13 +183,10 @@ Qed.
 Theorem batch_is_canon (ds : list cd) : Forall fresh ds -> leaf_calculate ds = canon ds.
 Proof.
   intros H. unfold leaf_calculate, canon. rewrite find_calc_index_fresh by assumption.
-  exact (loop_fresh ds [] H).
+  exact (loop_fresh ds [] IC_nil H).
 Qed.
 
 (* ---- canonical stores ---- *)
-Inductive IsCanon : store -> Prop :=
-| IC_nil : IsCanon []
-| IC_snoc a d v : IsCanon a -> fresh d -> calc (a ++ [d]) (zlen a) = Ok v -> IsCanon (a ++ [setk d (rnd_ v)]).
 
 Lemma canon_acc_iscanon : forall todo a r, IsCanon a -> Forall fresh todo -> canon_acc a todo = Ok r ->
   IsCanon r /\ exists tl, r = a ++ tl.
@@ -257,7 +260,8 @@ Proof.
     rewrite Ec at 1. rewrite own_setk, alist_get_set_same.
     destruct (negb (is_none NO (rnd_ v))) eqn:Nn; [exact Next|].
     (* the stored reading is None: it is recomputed, to the same value *)
-    pose proof (HC a d (Some (rnd_ v)) (m ++ tail) Hd) as Hc1. cbn [slot] in Hc1. rewrite <- Ec in Hc1.
+    assert (Ha : IsCanon a) by (eapply iscanon_prefix; [exact Hc|reflexivity]).
+    pose proof (HC a d (Some (rnd_ v)) (m ++ tail) Ha Hd) as Hc1. cbn [slot] in Hc1. rewrite <- Ec in Hc1.
     rewrite Hc1. rewrite Ev. cbn [bind].
     rewrite set_reading_mid. cbn [bind]. rewrite Ec. rewrite setk_idem. rewrite <- Ec. exact Next.
 Qed.
@@ -305,7 +309,7 @@ Proof.
   rewrite leaf_loop_app.
   assert (E1 : leaf_loop (zrange (zlen a) (zlen (a ++ m))) ((a ++ m) ++ new) = Ok ((a ++ m) ++ new)).
   { rewrite zlen_app. rewrite <- !app_assoc. apply loop_canon. exact Hc. }
-  rewrite E1. cbn [bind]. apply loop_fresh. exact Hf.
+  rewrite E1. cbn [bind]. apply loop_fresh; assumption.
 Qed.
 
 Theorem append_is_canon (cs : store) (new : list cd) : IsCanon cs -> Forall fresh new ->
